@@ -31,6 +31,14 @@ FloatTerm(c) == [d |-> "float", cls |-> "finite", w |-> c.w, bits |-> c.bits]
 FMap(floats) == [t \in {FloatTerm(floats[i]) : i \in 1..Len(floats)} |->
                    floats[CHOOSE i \in 1..Len(floats) : FloatTerm(floats[i]) = t].sp]
 
+\* the integer-syntax class: no fraction and (an exponent, or not representable in 64 bits)
+HasFrac(sp) == \E i \in 1..Len(sp) : sp[i] = 46
+HasExp(sp) == \E i \in 1..Len(sp) : sp[i] \in {69, 101}
+TwoPow63 == Pow2(63)
+TwoPow64 == Pow2(64)
+FitsI64OrU64(sp) == LET d == ParseDec(sp) n == FromDigits(d.digits) IN
+                    ~HasFrac(sp) /\ ~HasExp(sp) /\
+                    IF d.neg THEN Cmp(n, TwoPow63) <= 0 ELSE Cmp(n, TwoPow64) < 0
 \* --- same shape up to member order; numbers: same real number, or both round to one of the floats
 NumAgree(a, b, floats) ==
   \/ SameValue(a, b)
@@ -60,14 +68,6 @@ TypedWhy(e) ==
        ELSE ""
 
 \* --- C17
-\* the integer-syntax class: no fraction and (an exponent, or not representable in 64 bits)
-HasFrac(sp) == \E i \in 1..Len(sp) : sp[i] = 46
-HasExp(sp) == \E i \in 1..Len(sp) : sp[i] \in {69, 101}
-TwoPow63 == Pow2(63)
-TwoPow64 == Pow2(64)
-FitsI64OrU64(sp) == LET d == ParseDec(sp) n == FromDigits(d.digits) IN
-                    ~HasFrac(sp) /\ ~HasExp(sp) /\
-                    IF d.neg THEN Cmp(n, TwoPow63) <= 0 ELSE Cmp(n, TwoPow64) < 0
 K1Class(sp) == ~HasFrac(sp) /\ ~FitsI64OrU64(sp)
 RECURSIVE NumbersOf(_)
 NumbersOf(v) == CASE v.t = "num" -> {v.num}
@@ -97,9 +97,11 @@ ValueSerWhy(e) ==
 
 \* same structure; every number denotes the same integer, or the same double (certs: nearest doubles of v's numbers)
 CertFor(sp, certs) == CHOOSE i \in 1..Len(certs) : certs[i].sp = sp
+\* a 64-bit integer must stay that integer; any other number must denote the same double
 NumKeeps(a, b, certs) ==
   \/ SameValue(a, b)
-  \/ /\ \E i \in 1..Len(certs) : certs[i].sp = a
+  \/ /\ ~FitsI64OrU64(a)
+     /\ \E i \in 1..Len(certs) : certs[i].sp = a
      /\ LET c == certs[CertFor(a, certs)] m == FromDigits(StripLeading(c.m)) IN
         RoundsTo(ParseDec(b), m, c.e, 53, -1074)
 RECURSIVE Keeps(_, _, _)
